@@ -244,6 +244,70 @@ def _names_attrs(e):
     return out
 
 
+_INF = float("inf")
+
+
+def _interval(fnode, e, line, depth):
+    """integer interval [lo, hi] of expression e as evaluated at `line` of fnode (names resolved to their last assignment
+    textually before that line); None when unknown"""
+    if depth > 8:
+        return None
+    if isinstance(e, ast.Constant) and isinstance(e.value, int) and not isinstance(e.value, bool):
+        return (e.value, e.value)
+    if isinstance(e, ast.Call) and isinstance(e.func, ast.Name):
+        if e.func.id == "sum":
+            return (0, _INF)  # sums of byte values
+        if e.func.id == "int" and len(e.args) == 2 and isinstance(e.args[1], ast.Constant) and isinstance(e.args[0], ast.Subscript) and isinstance(e.args[0].slice, ast.Slice):
+            sl = e.args[0].slice
+            lo = sl.lower.value if isinstance(sl.lower, ast.Constant) else (0 if sl.lower is None else None)
+            hi = sl.upper.value if isinstance(sl.upper, ast.Constant) else (0 if sl.upper is None else None)
+            if isinstance(sl.lower, ast.UnaryOp) and isinstance(sl.lower.op, ast.USub) and isinstance(sl.lower.operand, ast.Constant):
+                lo = -sl.lower.operand.value
+            if lo is not None and hi is not None and (hi - lo) > 0:
+                return (0, e.args[1].value ** (hi - lo) - 1)
+        return None
+    if isinstance(e, ast.UnaryOp) and isinstance(e.op, ast.USub):
+        a = _interval(fnode, e.operand, line, depth + 1)
+        return None if a is None else (-a[1], -a[0])
+    if isinstance(e, ast.UnaryOp) and isinstance(e.op, ast.Invert):
+        a = _interval(fnode, e.operand, line, depth + 1)
+        return None if a is None else (-a[1] - 1, -a[0] - 1)
+    if isinstance(e, ast.BinOp):
+        a = _interval(fnode, e.left, line, depth + 1)
+        b = _interval(fnode, e.right, line, depth + 1)
+        if isinstance(e.op, ast.BitAnd):
+            # x & m with a non-negative constant mask is within [0, m] whatever x is
+            for m in (a, b):
+                if m is not None and m[0] == m[1] and m[0] >= 0:
+                    return (0, m[0])
+            return None
+        if isinstance(e.op, ast.Mod) and b is not None and b[0] == b[1] and b[0] > 0:
+            return (0, b[0] - 1)
+        if a is None or b is None:
+            return None
+        if isinstance(e.op, ast.Add):
+            return (a[0] + b[0], a[1] + b[1])
+        if isinstance(e.op, ast.Sub):
+            return (a[0] - b[1], a[1] - b[0])
+        if isinstance(e.op, ast.BitXor) and a[0] >= 0 and b[0] >= 0 and a[1] != _INF and b[1] != _INF:
+            top = 1
+            while top <= max(a[1], b[1]):
+                top <<= 1
+            return (0, top - 1)
+        return None
+    if isinstance(e, (ast.Name, ast.Attribute)):
+        txt = norm(e)
+        best = None
+        for n in ast.walk(fnode):
+            if isinstance(n, ast.Assign) and len(n.targets) == 1 and norm(n.targets[0]) == txt and n.lineno < line:
+                if best is None or n.lineno > best.lineno:
+                    best = n
+        if best is None:
+            return None
+        return _interval(fnode, best.value, best.lineno, depth + 1)
+    return None
+
+
 def r_cksum(repo, tier):
     out = RuleOut(
         "R-CKSUM",
@@ -303,6 +367,16 @@ def r_cksum(repo, tier):
                 out.inst(key, {"parser": qual, "check": norm(test), "form": "if", "rejects": escape is None})
                 if escape is not None:
                     out.report(rel, f.dqual, "checksum mismatch not rejected: %s" % norm(cmpn), s.lineno, "when the stored checksum differs from the computed one the parser continues to a normal return (path %s): a corrupted record is accepted" % cfg.describe_path(escape))
+            # the computed side is a byte: its interval (small abstract interpretation of the defining expressions) lies in [0, 255]
+            for side in [cmpn.left] + list(cmpn.comparators):
+                if not (_names_attrs(side) & t):
+                    continue
+                iv = _interval(f.node, side, s.lineno, 0)
+                out.inst(key + "::range", {"computed": norm(side), "interval": None if iv is None else [iv[0], iv[1]]})
+                if iv is None:
+                    out.undecide(rel, f.dqual, norm(side), "range of the computed checksum not determined")
+                elif iv[0] < 0 or iv[1] > 255:
+                    out.report(rel, f.dqual, "checksum range %s" % norm(side), s.lineno, "the computed checksum `%s` ranges over [%s, %s] but is compared with one byte of the record (0..255): records whose checksum byte falls outside the common range are rejected although they are valid" % (norm(side), iv[0], iv[1]))
         if not found:
             out.report(rel, f.dqual, "no checksum comparison", f.node.lineno, "the parser computes a checksum (%s) but never compares it with the record's checksum field" % sorted(t))
     out.stats["comparisons"] = n
